@@ -19,14 +19,16 @@ THIRD = "cccccccccc"
 
 class Sim:
     def __init__(self, modes=("set", "set"), nmsg=(1, 1), delegated=(True, True), adversary=(), eager=True,
-                 welcome_error=False, wrong_code=False, max_opens=3, appids=("appid", "appid")):
+                 welcome_error=False, wrong_code=False, max_opens=3, appids=("appid", "appid"), auto_get=True, getters=False):
         self.modes, self.nmsg, self.adv, self.max_opens = modes, nmsg, set(adversary), max_opens
         self.world = World()
         self.world.__enter__()
         self.world.server.eager = eager
         if welcome_error:
             self.world.server.welcome = {"error": "go away"}
-        self.cl = [Client(self.world, "AB"[i], delegated=delegated[i], appid=appids[i]) for i in range(len(modes))]
+        self.cl = [Client(self.world, "AB"[i], delegated=delegated[i], appid=appids[i], auto_get=auto_get) for i in range(len(modes))]
+        self.getters = getters      # deferred API: get_*() calls are schedule actions
+        self.got = [dict() for _ in modes]
         self.api = [dict(code=False, sent=0, closed=False, helper=None, np=False, words=False, opens=0) for _ in modes]
         self.wrong_code = wrong_code
         self.trace = []
@@ -84,7 +86,8 @@ class Sim:
                     acts.append(("allocate", X))
                 elif m == "input":
                     acts.append(("input", X))
-            if m == "input" and a["helper"] is not None and not a["closed"]:
+            partner_allocates = any(self.modes[j] == "allocate" for j in range(len(self.modes)) if j != i)
+            if m == "input" and a["helper"] is not None and not a["closed"] and (self.known_code() or not partner_allocates):
                 if not a["np"]:
                     acts.append(("choose_nameplate", X))
                 elif not a["words"]:
@@ -93,6 +96,10 @@ class Sim:
                 acts.append(("send", X))
             if not a["closed"]:
                 acts.append(("close", X))
+            if self.getters and not c.delegated:
+                for what in ("get_code", "get_unverified_key", "get_verifier", "get_versions", "get_message"):
+                    if self.got[i].get(what, 0) < (2 if what == "get_message" else 1):
+                        acts.append(("get", X, what))
             if c.svc.stop_d is not None:
                 acts.append(("stopped", X))
             if c.conn is None:
@@ -157,8 +164,16 @@ class Sim:
         elif kind == "send":
             c.api("send_message", b"msg-%s-%d" % (act[1].encode(), a["sent"]))
             a["sent"] += 1
+        elif kind == "get":
+            what = act[2]
+            self.got[i][what] = self.got[i].get(what, 0) + 1
+            entry = c.get(what)
+            entry_pos = len(c.ev)
+            c.get_log = getattr(c, "get_log", [])
+            c.get_log.append((what, entry, len(self.trace)))
         elif kind == "close":
             a["closed"] = True
+            c.closed_when = dict(boss=c.state("B"), step=len(self.trace), nev=len(c.ev))
             if c.delegated:
                 c.api("close")
             else:
